@@ -19,7 +19,8 @@ RULE = ("triples: CIDAR entry/cassette/device vectors, EcoFlex cassette/device v
         "vectors with overhangs taken from the product / GACC) with YTKProduct -> YTKEntry; vectors = random instances of the vector "
         "structure with filler free of both enzymes' sites and exactly two sites of each enzyme; chains of 1..4 inserts of 2..40 nt free "
         "of both enzymes' sites; product typed at all rotations that put the origin inside the next-level flanks plus 4 random ones. "
-        "Non-trivial = product has exactly the two next-level sites and was typed at >= 10 rotations; distinct = distinct (triple, vector, inserts).")
+        "Non-trivial = product has exactly the two next-level sites and was typed at >= 10 rotations; distinct = distinct (triple, vector, inserts)."
+        " Second session: every typed product is also assembled into the kit's own next vector class instantiated with the two overhangs the product needs (devices into cassette-vector layouts).")
 ASSUMPTIONS = ["inserts are at least two nucleotides long and contain no site of either level's enzyme",
                "for YTK the 'insert' is the template between the type-specific overhangs embedded in the product"]
 FLOORS = {"c11_vectors_with_next_level_site_in_placeholder": 40, "c11_products_typed": 400, "c11_rotations_typed": 6000, "c11_reassembled": 300, "c11_reassembled_in_kit_vector": 150, "c11_two_level": 20, "c11_triples_seen": 8}
